@@ -67,3 +67,50 @@ Proof. vm_compute. split; reflexivity. Qed.
 Example C34_ex_rejected :
   out (cors [ex_rule] (ex_req B"https://example.com")) = Forbidden.
 Proof. vm_compute. reflexivity. Qed.
+
+(* ---- server leg: resolveCORSRulesForRequest / bucketFromPath over the corscache middleware and the
+   bucket's stored configuration (Model/Cors.v sstep; proofs in Proofs/CorsServerProofs.v) ---- *)
+From Verif Require Import CorsServerProofs.
+
+(* the cache is transparent: any history of CreateBucket / DeleteBucket / PutBucketCORS / DeleteBucketCORS /
+   requests produces exactly the outputs of the cache-free specification *)
+Theorem C34_server_cache_transparent : forall ops, srun sinit ops = spec_run [] ops.
+Proof. exact srun_init_refines. Qed.
+Print Assumptions C34_server_cache_transparent.
+
+(* at any position of any history, the request is answered by the middleware under the configuration
+   the bucket addressed by its path has at that moment *)
+Theorem C34_server_answered_from_current_config : forall pre path q post,
+  nth_error (srun sinit (pre ++ SReq path q :: post)) (length pre) =
+  Some (OResp (cors (current_rules (spec_store [] pre) path) q)).
+Proof. exact request_answered_from_current_config. Qed.
+Print Assumptions C34_server_answered_from_current_config.
+
+(* Access-Control-Allow-Origin only by a matching rule of the addressed bucket's CURRENT configuration *)
+Theorem C34_server_acao_only_by_current_rule : forall pre path q post r,
+  nth_error (srun sinit (pre ++ SReq path q :: post)) (length pre) = Some (OResp r) ->
+  (acao r <> None <->
+   trim_space (q_origin q) <> [] /\
+   exists b rs rl, bucket_from_path path = Some b /\ alookup b (spec_store [] pre) = Some (Some rs) /\
+                   In rl rs /\ rule_matches rl q).
+Proof. exact acao_only_by_current_rule. Qed.
+Print Assumptions C34_server_acao_only_by_current_rule.
+
+(* a deleted bucket grants nothing, whatever had been cached for it *)
+Theorem C34_server_no_grant_after_bucket_delete : forall pre b path q post r,
+  bucket_from_path path = Some b ->
+  nth_error (srun sinit ((pre ++ [SDeleteBucket b]) ++ SReq path q :: post)) (length (pre ++ [SDeleteBucket b]))
+    = Some (OResp r) ->
+  acao r = None.
+Proof. exact no_grant_after_bucket_delete. Qed.
+Print Assumptions C34_server_no_grant_after_bucket_delete.
+
+(* non-vacuity: configuration cached by a first request, bucket deleted and re-created, same request again *)
+Definition ex_get (o : bytes) : request := {| q_method := B"GET"; q_origin := o; q_acrm := []; q_acrh := [] |}.
+Example C34_ex_server_history :
+  map (fun o => match o with OResp r => acao r | _ => None end)
+      (srun sinit [SCreate B"b0"; SPut B"b0" [ex_rule]; SReq B"/b0/key" (ex_get B"https://a.example.com");
+                   SDeleteBucket B"b0"; SCreate B"b0"; SReq B"/b0/key" (ex_get B"https://a.example.com");
+                   SReq B"/ b0/key" (ex_get B"https://a.example.com")])
+  = [None; None; Some B"https://a.example.com"; None; None; None; None].
+Proof. vm_compute. reflexivity. Qed.
